@@ -121,6 +121,8 @@ def _calib(case, cov, viol):
         order = sorted(range(n), key=lambda i: (-scores[i], weights[i]))
         conf = pd.DataFrame(
             {
+                # unit ids whose alphabetical order is neither the row order nor the score order
+                "geographic_unit_fips": [f"u{(7 * k + 3) % 11:02d}" for k in range(n)],
                 "last_election_results_turnout": [weights[i] for i in order],
                 # score = max(lower_bounds, upper_bounds): alternate which side carries it
                 "lower_bounds": [scores[i] if k % 2 == 0 else scores[i] - 0.05 for k, i in enumerate(order)],
@@ -135,7 +137,11 @@ def _calib(case, cov, viol):
                 cov["unattainable_levels_skipped"] += 1
                 continue
             for robust in (False, True):
-                model = NonparametricElectionModel({"robust": robust})
+                # settings that have nothing to do with calibration (the request to save the calibration data) rotate
+                save = (ALPHAS.index(alpha) + n) % 3 == 0
+                model = NonparametricElectionModel(dict({"robust": robust}, **({"save_conformalization": True} if save else {})))
+                if save:
+                    cov["runs_with_save_conformalization"] += 1
                 model.get_unit_prediction_interval_bounds = lambda *a, **k: PredictionIntervals(unadj_lower.copy(), unadj_upper.copy(), conf.copy())
                 # the outstanding units arrive either with fresh 0..m-1 row labels or as a slice of a larger frame (row labels
                 # that are not positions): the bounds belong to rows, not to labels
